@@ -159,6 +159,12 @@ impl Link {
         }
     }
 
+    /// True when a line or a generated label refers to the address behind the last opcode.
+    pub fn has_label_at_end(&self) -> bool {
+        let end = self.ops.len();
+        self.symbols.values().any(|(op_addr, _)| *op_addr == end)
+    }
+
     pub fn next_symbol(&mut self) -> Symbol {
         self.current_symbol -= 1;
         self.current_symbol
